@@ -626,7 +626,7 @@ void enumerate(int n, int nalpha, uint64_t &caseno, const std::string &only_dom,
     for (uint64_t sc = 0; sc < nst; sc++) {
       if (!vp::mine(caseno++)) continue;
       static uint64_t mine_count = 0;
-      if ((++mine_count & 0x3f) == 0 && vp::past_deadline()) {
+      if ((++mine_count & 0x3) == 0 && vp::past_deadline()) {
         vp::incomplete("n=" + std::to_string(n) + " cut at edges=" + std::to_string(edges));
         return;
       }
